@@ -34,6 +34,11 @@ def obligations(tier):
            bounds="clock, old modified, caller modified: every microsecond in a 3 s window; version, revoked flag symbolic; 9 change sets"),
         CH("sco_locked_properties", H, "sco_locked", t, mode="E1s", functions=F[1:2],
            bounds="File object/dict x UUIDv5/UUIDv4 id x 4 properties x change/removal"),
+        CH("marking_operations_version", H, "marking_ops", t * 2, mode="E1s", functions=F + ["stix2.markings.object_markings.add_markings",
+           "stix2.markings.object_markings.remove_markings", "stix2.markings.object_markings.clear_markings", "stix2.markings.granular_markings.add_markings",
+           "stix2.markings.granular_markings.remove_markings", "stix2.markings.granular_markings.clear_markings"],
+           bounds="11 object-level/granular marking operations x 8 clock offsets x 4 old modified values x object/dict x 2.0/2.1 x revoked or not, on a Malware that "
+                  "already carries object and granular markings"),
         CH("every_versionable_class", H, "real_objects", t * 2, mode="E1s", functions=F,
            bounds="every versionable class of both versions (live registry) x object/dict x 8 clock offsets x 4 old instants; new_version then revoke"),
         JOB("modified_precision_wiring", "props.j_tables", "job_modified_precision", 120, engine="smt",
